@@ -44,6 +44,7 @@ type bWorld struct {
 	trusted map[string][]macaroon.EncryptionKey
 	pool    []string   // header entries
 	perms   []string   // entries that are permission tokens of permLoc under a known key (for the cache family)
+	big     bool       // thorough tier: some headers with up to 25 entries
 	fams    [][]string // per minted token: its entry followed by the discharges minted for it
 }
 
@@ -82,16 +83,20 @@ func (w *bWorld) req() req {
 	}
 	d.NowSec, d.NowNsec = baseNow, 0
 	d.Org = p64(pick(r, []uint64{1, 2}))
-	d.Action = pick(r, []resset.Action{resset.ActionRead, resset.ActionWrite, resset.ActionRead | resset.ActionWrite, resset.ActionNone})
-	if r.Bool() {
-		d.App = p64(pick(r, []uint64{1, 2, 3}))
+	if r.Chance(1, 10) { // the request names no organization, or the wildcard
+		d.Org = pick(r, []*uint64{nil, p64(0)})
 	}
-	kind := pick(r, []string{"org", "orgApp", "full", "app", "action"})
+	d.Action = pick(r, []resset.Action{resset.ActionRead, resset.ActionWrite, resset.ActionRead | resset.ActionWrite, resset.ActionNone, resset.ActionAll, 0x20})
+	if r.Bool() {
+		d.App = p64(pick(r, []uint64{1, 2, 3, 0}))
+	}
+	kind := pick(r, []string{"org", "orgApp", "full", "app", "action", "bare", "fullNoAction"})
 	return req{d.As(kind), d.Sx(kind), "dyn." + kind}
 }
 
 func (w *bWorld) reqs() ([]macaroon.Access, string) {
-	n := pick(w.r, []int{1, 1, 1, 2, 0})
+	n := pick(w.r, []int{1, 1, 1, 2, 0, 3, 4})
+	w.o.count(fmt.Sprintf("reqs.%d", n))
 	accs := make([]macaroon.Access, n)
 	sxs := make([]string, n)
 	for i := range accs {
@@ -103,21 +108,52 @@ func (w *bWorld) reqs() ([]macaroon.Access, string) {
 
 func newBWorld(r *Rng, o *Out) *bWorld {
 	w := &bWorld{r: r, o: o, keys: map[string]macaroon.SigningKey{}, trusted: map[string][]macaroon.EncryptionKey{}}
-	w.permLoc = pick(r, []string{flyio.LocationPermission, "https://perm.example", "root"})
+	// the issuer's location: also the empty string, with a trailing slash, with upper-case letters
+	w.permLoc = pick(r, []string{flyio.LocationPermission, "https://perm.example", "root", flyio.LocationPermission, "https://perm.example", "",
+		"https://perm.example/", "Https://Perm.Example"})
+	o.count("permloc." + map[bool]string{true: "empty", false: "nonempty"}[w.permLoc == ""])
 	nk := 1 + r.Intn(3)
 	for i := 0; i < nk; i++ {
-		kid := r.Bytes(pick(r, []int{1, 8, 16}))
+		// key-ids of every length, the empty one included; distinct
+		kid := r.Bytes(pick(r, []int{1, 8, 16, 0, 40}))
+		for _, dup := w.keys[string(kid)]; dup; _, dup = w.keys[string(kid)] {
+			kid = r.Bytes(pick(r, []int{1, 8, 16}))
+		}
 		w.kids = append(w.kids, kid)
 		w.keys[string(kid)] = r.Bytes(32)
+		o.count(fmt.Sprintf("kid.len.%d", len(kid)))
 	}
 	o.count(fmt.Sprintf("kids.%d", nk))
 	ntp := 1 + r.Intn(3)
 	locs := []string{"https://auth.example", "https://other.example", "tp3"}
+	if r.Chance(1, 4) { // third parties whose locations differ in a trailing slash / letter case only
+		locs = []string{"https://auth.example", "https://auth.example/", "https://AUTH.example"}
+		o.count("tps.confusable")
+	}
 	for i := 0; i < ntp; i++ {
 		p := tpParty{locs[i], r.Bytes(32)}
+		if i == 1 && r.Chance(1, 6) { // two third parties sharing one key
+			p.ka = w.tps[0].ka
+			o.count("tps.sharedKey")
+		}
 		w.tps = append(w.tps, p)
-		if r.Chance(2, 3) {
-			w.trusted[p.loc] = append(w.trusted[p.loc], p.ka)
+		// trusted keys per location: none, the right one, the right one behind / in front of decoys, only a wrong one
+		decoy := macaroon.EncryptionKey(r.Bytes(32))
+		switch r.Intn(6) {
+		case 0, 1:
+			w.trusted[p.loc] = []macaroon.EncryptionKey{p.ka}
+			o.count("trust.exact")
+		case 2:
+			w.trusted[p.loc] = []macaroon.EncryptionKey{decoy, p.ka}
+			o.count("trust.decoyFirst")
+		case 3:
+			w.trusted[p.loc] = []macaroon.EncryptionKey{p.ka, decoy}
+			o.count("trust.decoyLast")
+		case 4:
+			w.trusted[p.loc] = []macaroon.EncryptionKey{decoy}
+			o.count("trust.wrongOnly")
+		default:
+			o.count("trust.none")
 		}
 	}
 	o.count(fmt.Sprintf("tps.%d", ntp))
@@ -168,6 +204,13 @@ func (w *bWorld) mintFamily() {
 	m, err := macaroon.New(kid, loc, key)
 	if err != nil {
 		panic(err)
+	}
+	if r.Chance(1, 8) { // a token minted with the old two-field nonce
+		m, err = macaroon.Decode(oldFormatToken(key, kid, r.Bytes(16), loc))
+		if err != nil {
+			panic(err)
+		}
+		o.count("pool.nonce.v0")
 	}
 	for i, n := 0, r.Intn(3); i < n; i++ {
 		if err := m.Add(w.cav()); err != nil {
@@ -226,10 +269,45 @@ func (w *bWorld) mintFamily() {
 		w.pool = append(w.pool, b64tok(w.label(), mustEnc(m2)))
 		o.count("pool.badsig")
 	}
+	// a sibling token carrying the SAME third-party caveats (same tickets): one discharge serves both
+	if len(uses) > 0 && r.Chance(1, 6) {
+		sm, err := macaroon.New(kid, loc, key)
+		if err != nil {
+			panic(err)
+		}
+		sm.Add(w.cav())
+		for _, u := range uses {
+			if err := sm.Add(u.it.cav); err != nil {
+				panic(err)
+			}
+		}
+		se := b64tok(w.label(), mustEnc(sm))
+		w.pool = append(w.pool, se)
+		fam = append(fam, se)
+		if kind == "valid" {
+			w.perms = append(w.perms, se)
+		}
+		o.count("pool.sharedTicketSibling")
+	}
 	for _, u := range uses {
 		if r.Chance(1, 4) {
 			o.count("pool.undischarged")
 			continue
+		}
+		// a token that merely carries the ticket as its key-id (wrong key): a candidate that never verifies
+		fake := ""
+		if r.Chance(1, 6) {
+			fm, err := macaroon.New(u.it.tp.ticket, u.p.loc, r.Bytes(32))
+			if err != nil {
+				panic(err)
+			}
+			fake = b64tok(w.label(), mustEnc(fm))
+			o.count("pool.fakeCandidate")
+			if r.Bool() { // in front of the real ones
+				w.pool = append(w.pool, fake)
+				fam = append(fam, fake)
+				fake = ""
+			}
 		}
 		nd := 1
 		if r.Chance(1, 2) {
@@ -250,20 +328,34 @@ func (w *bWorld) mintFamily() {
 				extra = append(extra, &a)
 			}
 			var dm *macaroon.Macaroon
+			// the discharge's Location is its minter's choice: usually the caveat's, sometimes not
+			dloc := u.p.loc
+			if r.Chance(1, 6) {
+				dloc = pick(r, []string{u.p.loc + "/", strings.ToUpper(u.p.loc), "", "https://minted.elsewhere.example", caseFlipOne(r, u.p.loc)})
+				o.count("pool.discharge.otherLocation")
+				if r.Bool() && dloc != w.permLoc { // trust is looked up under the discharge's location
+					w.trusted[dloc] = append(w.trusted[dloc], u.p.ka)
+				}
+			}
 			if r.Chance(4, 5) {
-				_, d, err := macaroon.DischargeTicket(u.p.ka, u.p.loc, u.it.tp.ticket)
+				_, d, err := macaroon.DischargeTicket(u.p.ka, dloc, u.it.tp.ticket)
 				if err != nil {
 					panic(err)
 				}
 				dm = d
 				o.count("pool.discharge.proof")
 			} else {
-				d, err := macaroon.New(u.it.tp.ticket, u.p.loc, u.it.tp.rn)
+				d, err := macaroon.New(u.it.tp.ticket, dloc, u.it.tp.rn)
 				if err != nil {
 					panic(err)
 				}
 				dm = d
 				o.count("pool.discharge.nonproof")
+			}
+			if r.Chance(1, 12) { // a discharge that itself demands a discharge: nested ones are never looked for
+				if err := dm.Add3P(r.Bytes(32), "https://nested.example"); err == nil {
+					o.count("pool.discharge.nested3p")
+				}
 			}
 			for _, c := range extra {
 				if err := dm.Add(c); err != nil {
@@ -282,8 +374,17 @@ func (w *bWorld) mintFamily() {
 				}
 			}
 			de := b64tok(w.label(), mustEnc(dm))
+			if r.Chance(1, 10) { // CR / LF inside the base64 text: Go's decoder skips them, the text is kept as it came
+				k := 5 + r.Intn(len(de)-6)
+				de = de[:k] + pick(r, []string{"\r\n", "\n", "\r"}) + de[k:]
+				o.count("pool.textWithNewline")
+			}
 			w.pool = append(w.pool, de)
 			fam = append(fam, de)
+		}
+		if fake != "" {
+			w.pool = append(w.pool, fake)
+			fam = append(fam, fake)
 		}
 	}
 }
@@ -294,10 +395,31 @@ func (w *bWorld) buildPool() {
 		w.mintFamily()
 	}
 	// junk
+	// random bytes that are NOT a macaroon (bytes starting with 0x90, the empty array, decode to the zero
+	// Macaroon whose nil key-id / tail the codec model does not tell from empty ones — C11 lists wire nil
+	// for []byte fields as outside its domain — so such accidents are redrawn and counted)
+	garbage := r.Bytes(1 + r.Intn(20))
+	for {
+		if _, err := macaroon.Decode(garbage); err != nil {
+			break
+		}
+		w.o.count("pool.junk.redrawn-decodable")
+		garbage = r.Bytes(1 + r.Intn(20))
+	}
 	junk := []string{
-		"fm2_!!!", "fm1r_", "fm2_" + base64.StdEncoding.EncodeToString(r.Bytes(1+r.Intn(20))),
+		"fm2_!!!", "fm1r_", "fm2_" + base64.StdEncoding.EncodeToString(garbage),
 		"fm1a_" + base64.StdEncoding.EncodeToString([]byte{0x94, 0x93}), "fo1_abc", "hello", "", "fm3_QUJD", "x y",
 		"fm2_QUJD=", "Bearer", "fm2_" + base64.RawStdEncoding.EncodeToString(r.Bytes(7)),
+		"fm2_", "_", "fm2__QUJD", "FlyV1", "fm2 _QUJD", "fm1r_QUJD QUJD", "fm2_\u00e9", "\u00a0", "fm2_QUJD\u00a0",
+	}
+	if len(w.perms) > 0 {
+		// real tokens under a label that is not one: upper case, unknown; and with trailing bytes after the macaroon
+		p := w.perms[0]
+		_, b64, _ := strings.Cut(p, "_")
+		junk = append(junk, "FM2_"+b64, "Fm1r_"+b64, "fm1_"+b64, "fm2a_"+b64)
+		if raw, err := base64.StdEncoding.DecodeString(b64); err == nil {
+			junk = append(junk, "fm2_"+base64.StdEncoding.EncodeToString(append(append([]byte{}, raw...), 0xc0)))
+		}
 	}
 	for i, n := 0, r.Intn(4); i < n; i++ {
 		w.pool = append(w.pool, pick(r, junk))
@@ -322,21 +444,33 @@ func (w *bWorld) header(min, max int) string {
 	}
 	for i := 0; i < n; i++ {
 		e := pick(r, w.pool)
-		if r.Chance(1, 6) {
-			e = pick(r, []string{" ", "  ", "\t"}) + e + pick(r, []string{"", " "})
+		if r.Chance(1, 5) { // white space around an entry is trimmed: every kind strings.TrimSpace knows
+			ws := []string{" ", "  ", "\t", "\r\n", "\n", "\u00a0", "\u3000", "\u0085", "\v\f", ""}
+			e = pick(r, ws) + e + pick(r, ws)
+			w.o.count("hdr.whitespace")
 		}
 		parts = append(parts, e)
+	}
+	if r.Chance(1, 10) { // empty entries
+		parts = append(parts, pick(r, []string{"", " ", ""}))
+		w.o.count("hdr.emptyEntry")
 	}
 	for i := len(parts) - 1; i > 0; i-- {
 		j := r.Intn(i + 1)
 		parts[i], parts[j] = parts[j], parts[i]
 	}
 	h := strings.Join(parts, ",")
-	switch r.Intn(5) {
+	switch r.Intn(9) {
 	case 0:
 		h = "FlyV1 " + h
 	case 1:
 		h = "Bearer " + h
+	case 2: // schemes in any letter case, several of them, extra white space
+		h = pick(r, []string{"flyv1 ", "BEARER ", "bearer FlyV1 ", "FlyV1  ", " FlyV1 ", "FlyV1 Bearer FLYV1 "}) + h
+		w.o.count("hdr.schemeVariant")
+	case 3: // something that is NOT a scheme prefix: no space after it, or another word
+		h = pick(r, []string{"FlyV1\t", "FlyV2 ", "Basic ", "FlyV1"}) + h
+		w.o.count("hdr.notAScheme")
 	}
 	return h
 }
@@ -662,6 +796,10 @@ func (w *bWorld) episode() {
 		outs = append(outs, out+"~"+statesStr(bs))
 	}
 	hdr := w.header(1, 7)
+	if w.big && r.Chance(1, 8) {
+		hdr = w.header(12, 25)
+		o.count("hdr.big")
+	}
 	pf := bFilter{func(b *bundle.Bundle) bundle.Filter { return nil }, "default"}
 	if r.Chance(1, 4) {
 		pf = w.genFilter(1)
@@ -689,8 +827,62 @@ func (w *bWorld) episode() {
 	for s := 0; s < n; s++ {
 		i := r.Intn(len(bs))
 		b := bs[i]
-		k := r.Intn(16)
+		k := r.Intn(20)
 		switch {
+		case k == 16 || k == 17:
+			// Verify with ANOTHER resolver than before: a key retired or replaced, trust dropped or widened
+			keys := map[string]macaroon.SigningKey{}
+			for kk, v := range w.keys {
+				keys[kk] = v
+			}
+			trust := map[string][]macaroon.EncryptionKey{}
+			for l, v := range w.trusted {
+				trust[l] = v
+			}
+			how := pick(r, []string{"retire", "replace", "notrust", "trustall", "same", "nokeys"})
+			switch how {
+			case "retire":
+				delete(keys, string(pick(r, w.kids)))
+			case "replace":
+				keys[string(pick(r, w.kids))] = r.Bytes(32)
+			case "notrust":
+				trust = map[string][]macaroon.EncryptionKey{}
+			case "trustall":
+				for _, p := range w.tps {
+					trust[p.loc] = []macaroon.EncryptionKey{p.ka}
+				}
+			case "nokeys":
+				keys = map[string]macaroon.SigningKey{}
+			}
+			ks := make([]string, 0, len(keys))
+			for kk := range keys {
+				ks = append(ks, kk)
+			}
+			sort.Strings(ks)
+			kp := []string{"keys"}
+			for _, kk := range ks {
+				kp = append(kp, fmt.Sprintf("(%s %s)", hs(kk), hx(keys[kk])))
+			}
+			cs, err := b.Verify(ctx, bundle.WithKeys(keys, trust))
+			o.count("op.verifyWith." + how + "." + flagStr(err))
+			step(fmt.Sprintf("(verifyWith %d (%s) %s)", i, strings.Join(kp, " "), sxTrust(trust)), setsStr(cs, err))
+		case k == 18:
+			// add exactly the discharges of some token family (often the ones this bundle is missing)
+			fam := pick(r, w.fams)
+			h := strings.Join(fam[1:], ",")
+			if len(fam) < 2 {
+				h = fam[0]
+			}
+			err := b.AddTokens(h)
+			o.count("op.addDischarges." + flagStr(err))
+			step(fmt.Sprintf("(add %d %s)", i, hs(h)), flagStr(err))
+		case k == 19:
+			// Discharge for a location no token mentions: nothing to do, no error
+			loc := pick(r, []string{"https://nobody.example", "", w.permLoc})
+			ka := r.Bytes(32)
+			err := b.Discharge(loc, ka, func([]macaroon.Caveat) ([]macaroon.Caveat, error) { return nil, nil })
+			o.count("op.dischargeNobody." + flagStr(err))
+			step(fmt.Sprintf("(discharge %d %s %s (ok))", i, hs(loc), hx(ka)), flagStr(err))
 		case k == 0:
 			h := w.header(1, 2)
 			err := b.AddTokens(h)
@@ -707,6 +899,10 @@ func (w *bWorld) episode() {
 			b.Filter(f.mk(b))
 			o.count("op.filter")
 			step(fmt.Sprintf("(filter %d %s)", i, f.sx), "-")
+			if r.Bool() { // emptied bundles in particular
+				step(fmt.Sprintf("(isEmpty %d)", i), fmt.Sprint(b.IsEmpty()))
+				o.count(fmt.Sprintf("op.isEmpty.afterFilter.%v", b.IsEmpty()))
+			}
 		case k == 3 || k == 4:
 			cavs, tpItem := w.genAttenuation(b)
 			all := append([]macaroon.Caveat{}, cavs...)
@@ -780,11 +976,21 @@ func (w *bWorld) episode() {
 			o.count("op.clone")
 			step(fmt.Sprintf("(clone %d)", i), fmt.Sprintf("new%d", len(bs)-1))
 		case k == 13:
-			switch r.Intn(4) {
+			switch r.Intn(7) {
 			case 0:
 				step(fmt.Sprintf("(header %d)", i), hs(b.Header()))
 			case 1:
 				step(fmt.Sprintf("(len %d)", i), fmt.Sprint(b.Len()))
+			case 4:
+				step(fmt.Sprintf("(string %d)", i), hs(b.String()))
+				o.count("op.string")
+			case 5:
+				step(fmt.Sprintf("(isEmpty %d)", i), fmt.Sprint(b.IsEmpty()))
+				o.count("op.isEmpty")
+			case 6:
+				f := w.genFilter(1)
+				step(fmt.Sprintf("(any %d %s)", i, f.sx), fmt.Sprint(b.Any(f.mk(b))))
+				o.count("op.any")
 			case 2:
 				e := "nil"
 				if b.Error() != nil {
@@ -1668,6 +1874,89 @@ func (w *bWorld) dupAttenuationEpisode() {
 		strings.Join(outs, " | "))
 }
 
+// confusableLocationsEpisode: one token with third-party caveats for locations that differ only in a
+// trailing slash / letter case (legal: Add refuses only the identical string), distinct keys.
+// IsMissingDischarge, UndischargedTicketsForThirdParty and Discharge must treat them as the different
+// third parties they are.
+func (w *bWorld) confusableLocationsEpisode() {
+	r, o := w.r, w.o
+	ctx := context.Background()
+	var bs []*bundle.Bundle
+	var ops, outs []string
+	defer func() {
+		if p := recover(); p != nil {
+			msg := strings.ReplaceAll(strings.SplitN(fmt.Sprint(p), "\n", 2)[0], " ", "_")
+			o.emit(fmt.Sprintf("(bundle.run (scope %s) %s %s %s %s)", bundleScope, w.sxKeys(), sxTrust(w.trusted), hs(w.permLoc), strings.Join(ops, " ")), "panic:"+msg)
+		}
+	}()
+	step := func(op, out string) {
+		ops = append(ops, op)
+		outs = append(outs, out+"~"+statesStr(bs))
+	}
+	base := pick(r, []string{"https://auth.example", "https://auth.example/v1", "tp"})
+	parties := []tpParty{{base, r.Bytes(32)}, {base + "/", r.Bytes(32)}, {strings.ToUpper(base), r.Bytes(32)}}
+	n := 2 + r.Intn(2)
+	parties = parties[:n]
+	for i := len(parties) - 1; i > 0; i-- {
+		j := r.Intn(i + 1)
+		parties[i], parties[j] = parties[j], parties[i]
+	}
+	kid := w.kids[0]
+	m, err := macaroon.New(kid, w.permLoc, w.keys[string(kid)])
+	if err != nil {
+		panic(err)
+	}
+	m.Add(&flyio.Organization{ID: 1, Mask: resset.ActionAll})
+	for _, p := range parties {
+		if err := m.Add3P(p.ka, p.loc); err != nil {
+			panic(err)
+		}
+	}
+	o.count(fmt.Sprintf("confusable.parties.%d", n))
+	hdr := "FlyV1 " + b64tok("fm2", mustEnc(m))
+	b, perr := bundle.ParseBundle(w.permLoc, hdr)
+	bs = append(bs, b)
+	e := "n"
+	if perr != nil {
+		e = "e"
+	}
+	step(fmt.Sprintf("(parse %s default)", hs(hdr)), "new0:"+e)
+	look := func() {
+		for _, p := range parties {
+			ts := b.UndischargedTicketsForThirdParty(p.loc)
+			q := make([]string, len(ts))
+			for x, t := range ts {
+				q[x] = hx(t)
+			}
+			step(fmt.Sprintf("(undischargedFor 0 %s)", hs(p.loc)), "u:"+strings.Join(q, ","))
+			step(fmt.Sprintf("(count 0 (missing %s))", hs(p.loc)), fmt.Sprint(b.Count(b.IsMissingDischarge(p.loc))))
+		}
+	}
+	look()
+	ro := resset.ActionRead
+	for k, p := range parties {
+		before := b.Len()
+		err := b.Discharge(p.loc, p.ka, func([]macaroon.Caveat) ([]macaroon.Caveat, error) { return []macaroon.Caveat{&ro}, nil })
+		rs := ""
+		if err == nil {
+			ms := bundle.Map(b, func(t bundle.Token) bundle.Token { return t })
+			for _, t := range ms[before:] {
+				rs += " " + hx(t.(bundle.Macaroon).Nonce().Rnd)
+			}
+		}
+		o.count("confusable.discharge." + flagStr(err))
+		step(fmt.Sprintf("(discharge 0 %s %s (ok (c %s))%s)", hs(p.loc), hx(p.ka), sxCav(&ro), rs), flagStr(err))
+		if k == 0 {
+			look()
+		}
+		cs, verr := b.Verify(ctx, w.resolver())
+		step("(verify 0)", setsStr(cs, verr))
+	}
+	look()
+	o.emit(fmt.Sprintf("(bundle.run (scope %s) %s %s %s %s)", bundleScope, w.sxKeys(), sxTrust(w.trusted), hs(w.permLoc), strings.Join(ops, " ")),
+		strings.Join(outs, " | "))
+}
+
 // ---- flyio/bundle.go ----
 
 // flyioEpisode: a bundle parsed with flyio.ParseBundle(WithFilter) from tokens of the four Fly.io
@@ -1904,6 +2193,7 @@ func famBundle(r *Rng, o *Out, tier string) {
 	}
 	for e := 0; e < n; e++ {
 		w := newBWorld(r, o)
+		w.big = tier == "thorough"
 		for k := 0; k < 3; k++ {
 			w.episode()
 		}
@@ -1912,6 +2202,9 @@ func famBundle(r *Rng, o *Out, tier string) {
 		w.failedAttenuationEpisode()
 		w.dischargeLocationEpisode()
 		w.dupAttenuationEpisode()
+		if r.Chance(1, 3) {
+			w.confusableLocationsEpisode()
+		}
 		flyioEpisode(r, o)
 	}
 }
